@@ -346,6 +346,24 @@ fn exec(
             json!({"steps": steps, "dump": store.verif_dump()})
         }
         "dump" => json!({"dump": store.verif_dump()}),
+        "gates" => {
+            let ps: Vec<String> = req["prefixes"].as_array().map(|a| a.iter().filter_map(|x| x.as_str().map(|s| s.to_string())).collect()).unwrap_or_default();
+            let refs: Vec<&str> = ps.iter().map(|s| s.as_str()).collect();
+            verif::set_gates(&refs);
+            json!({"gates": ps})
+        }
+        "step" => {
+            // release one parked actor (no-op if nothing parks there: hooks not compiled in)
+            let actor = req["actor"].as_str().unwrap_or("");
+            let wait = Duration::from_millis(req["wait_ms"].as_u64().unwrap_or(300));
+            match verif::settle(actor, wait) {
+                Ok(ActorState::Parked(at)) => {
+                    let r = verif::step(actor, Duration::from_millis(20));
+                    json!({"stepped": true, "at": at, "then": format!("{:?}", r)})
+                }
+                other => json!({"stepped": false, "state": format!("{:?}", other)}),
+            }
+        }
         "stream" => {
             // the whole stream over all contexts in id order, each frame with its CAS content
             let last = opt_id(&req["last"]);
